@@ -76,10 +76,31 @@ pub fn emit_case(k: usize, name: &str, prog: fun::syntax::program::CheckedProgra
     writeln!(out, "(case {k} ({} {input_prog} ({tup}) {exp}) {res})", sexp::quote(name)).unwrap();
 }
 
-/// Randomly generated checked programs.  Filled in when the generator module (`gen_fun`) is
-/// available in this tree; until then the corpus files are the inputs.
-fn generated(_rng: &mut Rng, _n: usize) -> Vec<(String, fun::syntax::program::CheckedProgram)> {
-    Vec::new()
+/// Randomly generated checked programs: the seeded type-directed generator of `gen_fun` (branch
+/// genfun) produces source text; the real parser and checker turn it into a CheckedProgram (a
+/// rejected program is dropped and counted on stderr).  Program k of a run uses its own PRNG stream
+/// and one of four option sets, so that deliberate shadowing, compiler-like names (x0, a0,
+/// share_f_0 ..) and name reuse are frequent, and half of the programs lie in the effect-sequenced
+/// fragment the property speaks about.
+fn generated(seed: u64, n: usize) -> Vec<(String, fun::syntax::program::CheckedProgram)> {
+    let mut out = Vec::new();
+    let mut rejected = 0usize;
+    for k in 0..n {
+        let opts: Vec<String> = match k % 4 {
+            0 => vec![],
+            1 => vec!["shadowing".into(), "compiler_like_names".into()],
+            2 => vec!["effect_sequenced".into(), "shadowing".into(), "name_reuse".into()],
+            _ => vec!["effect_sequenced".into(), "compiler_like_names".into()],
+        };
+        let g = std::panic::catch_unwind(|| crate::cmd_genfun::gen_k(seed, k, &opts));
+        let Ok(g) = g else { rejected += 1; continue };
+        match crate::pipe::checked(&g.text) {
+            Ok(p) => out.push((format!("gen:{seed}:{k}"), p)),
+            Err(_) => rejected += 1,
+        }
+    }
+    if rejected > 0 { eprintln!("fun2core: {rejected} of {n} generated programs rejected by the front end"); }
+    out
 }
 
 pub fn cmd_fun2core(seed: u64, n: usize, dirs: &[String], out: &mut dyn std::io::Write) {
@@ -99,7 +120,7 @@ pub fn cmd_fun2core(seed: u64, n: usize, dirs: &[String], out: &mut dyn std::io:
         emit_case(k, &file.to_string_lossy(), prog, &tuples, expected.as_deref(), out);
         k += 1;
     }
-    for (name, prog) in generated(&mut rng, n) {
+    for (name, prog) in generated(seed, n) {
         let tuples = tuples_for(&prog, None, &mut rng);
         emit_case(k, &name, prog, &tuples, None, out);
         k += 1;
